@@ -144,7 +144,7 @@ pub fn eval_path_in_child(file: &FsPath) -> ChildResult {
         let _ = std::io::Read::read_to_string(&mut se, &mut s);
         s
     });
-    let st = wait_timeout(&mut child, 300);
+    let st = wait_timeout(&mut child, 60);
     let out = h1.join().unwrap_or_default();
     let err = h2.join().unwrap_or_default();
     for line in out.lines() {
@@ -155,7 +155,7 @@ pub fn eval_path_in_child(file: &FsPath) -> ChildResult {
         }
     }
     let why = match st {
-        None => "timeout (300 s)".to_string(),
+        None => "timeout (60 s): call did not return".to_string(),
         Some(s) => format!("{:?}", s),
     };
     let last = err
@@ -414,7 +414,14 @@ pub fn minimise(sc0: &Scenario, budget: usize) -> Option<Minimised> {
 #[derive(Debug, Clone, Serialize, Deserialize)]
 pub struct Finding {
     pub id: String,
-    pub property: String,
+    /// properties whose checks can run into this finding
+    pub properties: Vec<String>,
+    /// for fixed entries: the literal "fixed: property=<id> <commit> <what failed>" line
+    #[serde(default)]
+    pub line: String,
+    /// the trigger is a pure configuration predicate and the configuration fails on its first call
+    #[serde(default)]
+    pub config_level: bool,
     /// "open" or "fixed"
     pub status: String,
     #[serde(default)]
@@ -443,6 +450,8 @@ pub fn trigger_matches(name: &str, sc: &Scenario, _v: &V) -> bool {
     let c = &sc.config;
     match name {
         "never" => false,
+        // D11: sinc resampler with oversampling_factor 1 and a 3- or 4-point interpolation
+        "sinc_oversampling1_quadratic_or_cubic" => c.kind.is_sinc() && c.oversampling == 1 && (c.interp % 4) >= 2,
         _ => {
             let _ = c;
             false
@@ -452,7 +461,7 @@ pub fn trigger_matches(name: &str, sc: &Scenario, _v: &V) -> bool {
 
 pub fn match_finding<'a>(fs: &'a [Finding], sc: &Scenario, v: &V) -> Option<&'a Finding> {
     fs.iter().find(|f| {
-        f.status == "open" && f.property == sc.property && f.clauses.iter().any(|c| c == &v.clause) && f.kinds.contains(&sc.config.kind) && trigger_matches(&f.trigger, sc, v)
+        f.status == "open" && f.properties.iter().any(|p| p == &sc.property) && f.clauses.iter().any(|c| c == &v.clause) && f.kinds.contains(&sc.config.kind) && trigger_matches(&f.trigger, sc, v)
     })
 }
 
@@ -563,7 +572,7 @@ pub fn check_main(cc: &CheckCfg) -> i32 {
     let mut kinds: BTreeMap<String, u64> = BTreeMap::new();
     let mut profiles: BTreeMap<String, u64> = BTreeMap::new();
     let mut digest_all: u64 = 0;
-    let hang_limit = Duration::from_secs(240);
+    let hang_limit = Duration::from_secs(std::env::var("RSIM_HANG_S").ok().and_then(|s| s.parse().ok()).unwrap_or(90));
     let mut live = cc.workers as usize;
     while live > 0 {
         match rx.recv_timeout(Duration::from_millis(500)) {
@@ -653,28 +662,40 @@ pub fn check_main(cc: &CheckCfg) -> i32 {
         todo.push((*i, "process-died".into()));
     }
     todo.sort();
+    let mut by_clause: BTreeMap<String, u64> = BTreeMap::new();
+    for (_, c) in &todo {
+        *by_clause.entry(c.clone()).or_insert(0) += 1;
+    }
+    if std::env::var("RSIM_DEBUG").is_ok() {
+        println!("DIED {:?}", died);
+    }
+    if !by_clause.is_empty() {
+        println!("FAILING-RUNS-BY-CLAUSE {:?}", by_clause);
+    }
     let replay_dir = verif_root().join("replays");
     let _ = std::fs::create_dir_all(&replay_dir);
     let mut unmin_known = 0u64;
     let per_class = if cc.tier == Tier::Quick { 2 } else { 3 };
     let mut known_ids: BTreeMap<String, (String, u64)> = BTreeMap::new();
+    let mut unreported = 0u64;
+    let _ = (&mut seen_class, per_class, &mut unmin_known);
     for (i, clause) in &todo {
-        let cnt = seen_class.entry(clause.clone()).or_insert(0);
-        *cnt += 1;
         let seed = run_seed(cc.base, &cc.prop, *i);
         let sc = generate(&cc.prop, seed, cc.tier);
-        if *cnt > per_class {
-            // beyond the per-class minimisation budget: classify without minimising
-            let v = V { prop: cc.prop.clone(), clause: clause.clone(), step: 0, detail: String::new() };
-            if let Some(f) = match_finding(&findings, &sc, &v) {
+        // findings whose trigger is a pure configuration predicate (the configuration cannot get past its
+        // first processing call) are matched without minimising
+        let v0 = V { prop: cc.prop.clone(), clause: clause.clone(), step: 0, detail: String::new() };
+        if let Some(f) = match_finding(&findings, &sc, &v0) {
+            if f.config_level {
                 known_ids.entry(f.id.clone()).or_insert((f.text.clone(), 0)).1 += 1;
-                unmin_known += 1;
                 continue;
             }
-            // an unlisted class member: it is reported through the minimised representatives above
+        }
+        if violations >= 8 {
+            unreported += 1;
             continue;
         }
-        let m = minimise(&sc, 220);
+        let m = minimise(&sc, if violations < 3 { 220 } else { 60 });
         let (msc, mv, evals) = match m {
             Some(m) => (m.scenario, m.viol, m.evals),
             None => {
@@ -694,6 +715,9 @@ pub fn check_main(cc: &CheckCfg) -> i32 {
         println!("VIOLATION property={} replay={}", cc.prop, path.display());
         println!("  clause={} step={} detail={}", mv.clause, mv.step, mv.detail);
         reported.push(json!({"run": i, "seed": seed, "clause": mv.clause, "detail": mv.detail, "replay": path.display().to_string(), "ops_after_minimisation": msc.ops.len()}));
+    }
+    if unreported > 0 {
+        println!("NOTE {} further failing runs were not minimised (report limit reached)", unreported);
     }
     for (id, (text, n)) in &known_ids {
         let line = format!("KNOWN-FINDING: property={} {} [{}; matched {} runs]", cc.prop, text, id, n);
